@@ -149,7 +149,7 @@ func checkTsig(c tsigCase) (err error) {
 	flags := binary.BigEndian.Uint16(packed[2:])
 	notauth := flags&0xF == 9
 	unsignedErr := c.Error == 16 || c.Error == 17 // BADSIG / BADKEY answers carry an empty MAC (RFC 8945 5.3.2)
-	classes := []string{"alg=" + lower(c.Alg), fmt.Sprintf("reqmac=%v", len(c.ReqMAC) > 0), fmt.Sprintf("timersonly=%v", c.TimersOnly),
+	classes := []string{"alg=" + lower(c.Alg), fmt.Sprintf("reqmac=%v", len(c.ReqMAC) > 0), fmt.Sprintf("reqmac>64=%v", len(c.ReqMAC) > 64), fmt.Sprintf("timersonly=%v", c.TimersOnly),
 		fmt.Sprintf("refsigned=%v", c.RefSigned), sizeClass(len(packed)), fmt.Sprintf("compress=%v", c.Msg.Compress), fmt.Sprintf("error=%d", min(int(c.Error), 19)),
 		fmt.Sprintf("other=%v", len(c.Other) > 0), fmt.Sprintf("secretlen=%s", lenClass(len(c.Secret)))}
 	nontrivial := c.Msg.Records() >= 1
@@ -598,7 +598,7 @@ func genTsig(t *rapid.T) tsigCase {
 	c.Secret = genSecret(t, "secret")
 	c.Secret2 = genSecret(t, "secret2")
 	if rapid.IntRange(0, 2).Draw(t, "hasreq") > 0 {
-		n := rapid.SampledFrom([]int{10, 16, 20, 28, 32, 48, 64}).Draw(t, "reqlen")
+		n := rapid.SampledFrom([]int{10, 16, 20, 28, 32, 48, 64, 64, 65, 66, 80, 128, 200, 1000}).Draw(t, "reqlen") // the request MAC is whatever the request carried: custom providers (GSS-TSIG) make long ones
 		c.ReqMAC = rapid.SliceOfN(rapid.Byte(), n, n).Draw(t, "reqmac")
 	}
 	c.TimersOnly = rapid.IntRange(0, 3).Draw(t, "timers") == 0
